@@ -112,10 +112,14 @@ func c18Eval(t tb, dir string, c c18Case) {
 
 func c18Grid() []string {
 	var g []string
-	for maj := 0; maj <= 3; maj++ {
-		for min := 0; min <= 3; min++ {
+	majors, minors, sufs := []int{0, 1, 2, 3}, []int{0, 1, 2, 3, 9, 10}, []string{"", "-rc.1", "+build5"}
+	if ev.Thorough() {
+		majors, minors, sufs = []int{0, 1, 2, 3, 10, 11}, []int{0, 1, 2, 3, 9, 10, 11, 100}, []string{"", "-rc.1", "+build5", "-rc.1+build5"}
+	}
+	for _, maj := range majors {
+		for _, min := range minors {
 			for _, p := range []int{0, 7} {
-				for _, suf := range []string{"", "-rc.1", "+build5"} {
+				for _, suf := range sufs {
 					g = append(g, fmt.Sprintf("%d.%d.%d%s", maj, min, p, suf))
 				}
 			}
@@ -159,7 +163,7 @@ func TestC18(t *testing.T) {
 			c18Eval(t, dir, c)
 		}
 	}
-	col.Exhaustive("grid 96x96 of (build, declared) versions: majors 0..3 x minors 0..3 x patches {0,7} x {release,-rc.1,+build5}")
+	col.Exhaustive(fmt.Sprintf("grid %dx%d of (build, declared) versions: quick majors 0..3 x minors {0,1,2,3,9,10} x patches {0,7} x {release,-rc.1,+build5}; thorough majors {0..3,10,11} x minors {0..3,9,10,11,100} x patches {0,7} x {release,-rc.1,+build5,-rc.1+build5}", len(grid), len(grid)))
 
 	// (2) builds without a semantic version; no declared version; malformed declared versions
 	nonSemverB := []string{"devel", "dev-main", "", "(devel)", "main", "v", "x.y.z", "1.2.3.4"}
@@ -209,7 +213,7 @@ func TestC18(t *testing.T) {
 	col.Exhaustive("non-semver builds x grid, absent version x all builds, 17 malformed declared versions x all builds")
 
 	// (3) random semantic versions beyond the grid
-	setRapidChecks(pick(150, 1500))
+	setRapidChecks(pick(150, 4000))
 	num := rapid.OneOf(
 		rapid.IntRange(0, 12).AsAny(),
 		rapid.SampledFrom([]int{99, 100, 2147483647}).AsAny(),
